@@ -360,6 +360,7 @@ struct ParamOpts {
   bool reorder = true;       // allow reorderingMaxNbCells >= 2
   bool wideOrdering = true;  // orderingWidth over the whole accepted range [-1,2]
   bool smallGlobal = true;   // small maxNbSteps in half of the runs
+  bool reorderFocus = false; // always run the row-reordering pass over several rows
 };
 
 inline ColoquinteParameters genParams(Rng &r, const ParamOpts &o) {
@@ -389,6 +390,11 @@ inline ColoquinteParameters genParams(Rng &r, const ParamOpts &o) {
     if (o.reorder) {
       p.detailed.reorderingNbRows = (int)r.in(1, 3);
       p.detailed.reorderingMaxNbCells = r.chance(0.4) ? (int)r.in(0, 1) : (int)r.in(2, 5);
+    }
+    if (o.reorderFocus) {
+      p.detailed.nbPasses = (int)r.in(1, 3);
+      p.detailed.reorderingNbRows = (int)r.in(2, 3);
+      p.detailed.reorderingMaxNbCells = (int)r.in(2, 6);
     }
   }
   // global, inside the numerically moderate box of C06
